@@ -127,9 +127,26 @@ theorem pkcs7_roundtrip (k : Nat) (hk : 0 < k) (hk2 : k < 256) (x : Bytes) :
   obtain ⟨hl, hm, h1, h2⟩ := pad_length k hk x
   exact ⟨unpad_pad k hk hk2 x, hm, by omega, by omega⟩
 
-/-- `unpadBuffer` on the empty buffer indexes `buffer[-1]` (modelled panic; reached only behind a
-matching tag, i.e. with the key). -/
-theorem pkcs7_unpad_empty_panics : unpad 16 [] = .panic := rfl
+/-- Defect F28 (repaired): `unpadBuffer` on the empty buffer indexed `buffer[-1]`. It is reached behind a matching
+tag — "with the key" — but the content key of a JWE is chosen by its SENDER: for RSA and ECDH-ES recipients anyone
+can build an object with an empty ciphertext and a valid tag. (This theorem stood here as `pkcs7_unpad_empty_panics`
+about the then-current code for a whole day with the remark "reached only with the key" before the excluded point
+was run on the real code.) -/
+theorem f28_witness_unrepaired : unpadUnrepaired 16 [] = .panic := rfl
+
+/-- The repaired `unpadBuffer` returns a value or an error for EVERY buffer, and with it the CBC-HMAC `Open`
+whatever the primitives, key, IV, ciphertext (empty included), tag and AAD are. -/
+theorem unpad_never_panics (k : Nat) (b : Bytes) : unpad k b ≠ .panic := unpad_ne_panic k b
+
+theorem cbc_open_never_panics (P : CbcPrims) (ek mk iv ct tag aad : Bytes) : cbcOpen P ek mk iv ct tag aad ≠ .panic := by
+  unfold cbcOpen
+  split
+  · simp
+  · split
+    · simp
+    · exact unpad_ne_panic _ _
+
+example : unpad 16 [] = err .generic := rfl
 
 /-! ### CBC-HMAC tag input -/
 
